@@ -345,6 +345,7 @@ void iom_snapshot_existing(int root) {
       objs[oid].len = st.st_size;
     }
     objs[oid].preexisting = objs[oid].len;
+    objs[oid].snapshot = 1;
     unlock();
   }
   closedir(d);
@@ -572,6 +573,7 @@ static int do_open(int which, const char *path, int flags, mode_t mode) {
             oid = new_obj(pc, nid, num);
             name_bind[nid] = oid;
             if (__real_fstat(fd, &st) == 0) objs[oid].len = objs[oid].preexisting = st.st_size;
+            objs[oid].snapshot = 1;
           }
         } else if (oid < 0) {
           oid = new_obj(pc, nid, num);
